@@ -368,6 +368,23 @@ impl<'a> FnCx<'a> {
                 Ok(())
             }
             syn::Expr::ForLoop(f) => self.tr_for(f, lines),
+            syn::Expr::MethodCall(mc) if mc.method == "fill" && mc.args.len() == 1 => {
+                let (root, path) = self.field_path(&mc.receiver)?;
+                let base = self.tr_expr(&mc.receiver, lines)?;
+                if base.ty != Ty::Arr {
+                    return err(mc, "fill on a non-array");
+                }
+                let c = self.tr_expr(&mc.args[0], lines)?;
+                if c.ty != Ty::F64 {
+                    return err(mc, "fill with a non-f64");
+                }
+                let t = self.fresh();
+                let call = self.lift(format!("Rs.fill {} 0 {}.size {}", paren(&base.val), paren(&base.val), paren(&c.val)));
+                self.mline(lines, &t, call);
+                let upd = self.nested_update(&root, &path, &t);
+                self.pline(lines, &root, upd);
+                Ok(())
+            }
             syn::Expr::MethodCall(_) | syn::Expr::Call(_) => {
                 self.tr_expr(e, lines)?;
                 Ok(())
@@ -448,7 +465,18 @@ impl<'a> FnCx<'a> {
 
     fn outer_assigned(&self, e: &syn::Expr) -> Vec<String> {
         let mut v = vec![];
-        assigned_in_expr(e, &mut v);
+        // methods known (from already translated signatures) never to take `&mut self`
+        let mut known_pure: Vec<String> = vec![];
+        let mut known_mut: Vec<String> = vec![];
+        for sig in self.t.sigs.values() {
+            if sig.recv == Recv::RefMut {
+                known_mut.push(sig.rust_name.clone());
+            } else {
+                known_pure.push(sig.rust_name.clone());
+            }
+        }
+        known_pure.retain(|n| !known_mut.contains(n));
+        assigned_in_expr_with(e, &mut v, &known_pure);
         v.retain(|x| self.lookup(x).is_some());
         let mut out: Vec<String> = vec![];
         for x in v {
@@ -878,6 +906,8 @@ impl<'a> FnCx<'a> {
                 "+" => "Rs.uadd",
                 "-" => "Rs.usub",
                 "*" => "Rs.umul",
+                "/" => "Rs.udiv",
+                "%" => "Rs.umod",
                 _ => return Err((line, format!("usize operator {}", op))),
             };
             let t = self.fresh();
@@ -935,8 +965,16 @@ impl<'a> FnCx<'a> {
                     return match segs[1].as_str() {
                         "INFINITY" => Ok(Ex { val: "(Scalar.posInf : F)".into(), ty: Ty::F64 }),
                         "NEG_INFINITY" => Ok(Ex { val: "(Scalar.negInf : F)".into(), ty: Ty::F64 }),
+                        "NAN" => Ok(Ex { val: "(Scalar.nan : F)".into(), ty: Ty::F64 }),
+                        "EPSILON" => Ok(Ex { val: "(Scalar.lit (5 ^ 52) 52 : F)".into(), ty: Ty::F64 }),
+                        "MAX" => Ok(Ex { val: "(Scalar.lit ((2 ^ 53 - 1) * 2 ^ 971) 0 : F)".into(), ty: Ty::F64 }),
+                        "MIN" => Ok(Ex { val: "(Scalar.neg (Scalar.lit ((2 ^ 53 - 1) * 2 ^ 971) 0) : F)".into(), ty: Ty::F64 }),
+                        "MIN_POSITIVE" => Ok(Ex { val: "(Scalar.lit (5 ^ 1022) 1022 : F)".into(), ty: Ty::F64 }),
                         _ => err(p, "f64 constant"),
                     };
+                }
+                if segs.len() == 2 && segs[0] == "usize" && segs[1] == "MAX" {
+                    return Ok(Ex { val: "Rs.usizeMax".into(), ty: Ty::Usize });
                 }
                 if segs.len() == 2 && segs[0] == "TaError" {
                     return Ok(Ex { val: format!("TaError.{}", segs[1]), ty: Ty::Err });
@@ -1022,12 +1060,13 @@ impl<'a> FnCx<'a> {
                         let op = if matches!(b.op, And(_)) { "&&" } else { "||" };
                         Ok(Ex { val: format!("({} {} {})", paren(&x.val), op, paren(&y.val)), ty: Ty::Bool })
                     }
-                    Add(_) | Sub(_) | Mul(_) | Div(_) => {
+                    Add(_) | Sub(_) | Mul(_) | Div(_) | Rem(_) => {
                         lines.extend(rl);
                         let op = match b.op {
                             Add(_) => "+",
                             Sub(_) => "-",
                             Mul(_) => "*",
+                            Rem(_) => "%",
                             _ => "/",
                         };
                         self.arith(op, x, y, line, lines)
@@ -1250,9 +1289,32 @@ impl<'a> FnCx<'a> {
                     ("sqrt", 0) => Ok(Ex { val: format!("Scalar.sqrt {}", v), ty: Ty::F64 }),
                     ("max", 1) if args[0].ty == Ty::F64 => Ok(Ex { val: format!("Scalar.max {} {}", v, paren(&args[0].val)), ty: Ty::F64 }),
                     ("is_sign_positive", 0) => Ok(Ex { val: format!("Scalar.isSignPositive {}", v), ty: Ty::Bool }),
+                    ("is_sign_negative", 0) => Ok(Ex { val: format!("!(Scalar.isSignPositive {})", v), ty: Ty::Bool }),
+                    ("min", 1) if args[0].ty == Ty::F64 => Ok(Ex { val: format!("Scalar.min {} {}", v, paren(&args[0].val)), ty: Ty::F64 }),
+                    ("is_nan", 0) => Ok(Ex { val: format!("!(Scalar.beq {} {})", v, v), ty: Ty::Bool }),
+                    ("is_finite", 0) => Ok(Ex { val: format!("Scalar.beq (Scalar.sub {} {}) (Scalar.lit 0 0)", v, v), ty: Ty::Bool }),
+                    ("clamp", 2) if args[0].ty == Ty::F64 && args[1].ty == Ty::F64 => {
+                        let t = self.fresh();
+                        let call = self.lift(format!("Rs.fclamp {} {} {}", v, paren(&args[0].val), paren(&args[1].val)));
+                        self.mline(lines, &t, call);
+                        Ok(Ex { val: t, ty: Ty::F64 })
+                    }
                     _ => err(m, format!("unsupported f64 method {}", name)),
                 }
             }
+            Ty::Usize => {
+                let v = paren(&r.val);
+                match (name.as_str(), args.len()) {
+                    ("min", 1) if args[0].ty == Ty::Usize => Ok(Ex { val: format!("(Nat.min {} {})", v, paren(&args[0].val)), ty: Ty::Usize }),
+                    ("max", 1) if args[0].ty == Ty::Usize => Ok(Ex { val: format!("(Nat.max {} {})", v, paren(&args[0].val)), ty: Ty::Usize }),
+                    ("saturating_sub", 1) if args[0].ty == Ty::Usize => Ok(Ex { val: format!("({} - {})", v, paren(&args[0].val)), ty: Ty::Usize }),
+                    _ => err(m, format!("unsupported usize method {}", name)),
+                }
+            }
+            Ty::Arr => match (name.as_str(), args.len()) {
+                ("len", 0) => Ok(Ex { val: format!("{}.size", paren(&r.val)), ty: Ty::Usize }),
+                _ => err(m, format!("unsupported method {} on a boxed slice", name)),
+            },
             Ty::Bar => match (name.as_str(), args.len()) {
                 ("open", 0) => Ok(Ex { val: format!("{}.open_", paren(&r.val)), ty: Ty::F64 }),
                 ("high", 0) | ("low", 0) | ("close", 0) | ("volume", 0) => Ok(Ex { val: format!("{}.{}", paren(&r.val), name), ty: Ty::F64 }),
@@ -1443,6 +1505,21 @@ pub fn contains_return_expr(e: &syn::Expr) -> bool {
 }
 
 /// root variables assigned (or mutated through a `&mut self` call) inside an expression
+pub fn assigned_in_expr_with(e: &syn::Expr, out: &mut Vec<String>, pure_methods: &[String]) {
+    let mut tmp = vec![];
+    assigned_in_expr(e, &mut tmp);
+    // `assigned_in_expr` marks receivers of unknown methods as mutated by pushing "<root>\u{1}<method>"
+    for x in tmp {
+        if let Some((root, m)) = x.split_once('\u{1}') {
+            if !pure_methods.iter().any(|p| p == m) {
+                out.push(root.to_string());
+            }
+        } else {
+            out.push(x);
+        }
+    }
+}
+
 pub fn assigned_in_expr(e: &syn::Expr, out: &mut Vec<String>) {
     fn root(e: &syn::Expr) -> Option<String> {
         match e {
@@ -1505,10 +1582,14 @@ pub fn assigned_in_expr(e: &syn::Expr, out: &mut Vec<String>) {
             }
             // conservatively: methods that may mutate their receiver
             let n = m.method.to_string();
-            const PURE: &[&str] = &["period", "multiplier", "mean", "abs", "sqrt", "max", "is_sign_positive", "open", "high", "low", "close", "volume", "iter", "enumerate", "unwrap", "into_boxed_slice"];
-            if !PURE.contains(&n.as_str()) {
+            const PURE: &[&str] = &["period", "multiplier", "mean", "abs", "sqrt", "max", "min", "clamp", "is_nan", "is_finite", "is_sign_positive", "is_sign_negative", "saturating_sub", "len", "open", "high", "low", "close", "volume", "iter", "enumerate", "unwrap", "into_boxed_slice"];
+            if n == "fill" {
                 if let Some(r) = root(&m.receiver) {
                     out.push(r);
+                }
+            } else if !PURE.contains(&n.as_str()) {
+                if let Some(r) = root(&m.receiver) {
+                    out.push(format!("{}\u{1}{}", r, n));
                 }
             }
         }
